@@ -221,10 +221,23 @@ SweChain(cname) ==
 
 \* Node.remove_attributes_with_default_values, as the code does it:
 \* compare the node text with the default by the NODE's tag
+\* the class-level _yatiml_defaults that hasattr() finds: the class's own, or
+\* that of the first base (recursively) that has one
+RECURSIVE YDefs(_)
+YDefs(cname) ==
+    IF Cls(cname).hasydef THEN Cls(cname).ydefaults
+    ELSE IF Cls(cname).bases = <<>> THEN <<>>
+    ELSE YDefs(Cls(cname).bases[1])
+\* introspection.defaulted_attributes: parameters with a signature default,
+\* overridden by _yatiml_defaults
 DefaultOf(cname, name) ==
     LET S == {j \in DOMAIN Cls(cname).params : Cls(cname).params[j].name = name
-                                              /\ ~Cls(cname).params[j].required} IN
-    IF S = {} THEN <<"nodef">> ELSE Cls(cname).params[CHOOSE j \in S : TRUE].default
+                                              /\ ~Cls(cname).params[j].required}
+        yd == YDefs(cname)
+        Y == {j \in DOMAIN yd : yd[j][1] = name} IN
+    IF S = {} THEN <<"nodef">>
+    ELSE IF Y # {} THEN yd[CHOOSE j \in Y : TRUE][2]
+    ELSE Cls(cname).params[CHOOSE j \in S : TRUE].default
 
 \* result: "match" | "keep"; the parsed value of the node is compared with
 \* the default itself (Python equality: 1 == True), it never raises
